@@ -1510,3 +1510,74 @@ def mutable_default_rule(ctx, rid, scope, min_instances=1):
                 r.fail(f.qualname, f"mutable-default:{nm}", f.file, w.lineno, f"{(f.cls.name + '.') if f.cls else ''}{f.name}", f"`{norm_text(w)[:60]}` writes into `{nm}`, whose default `{norm_text(d)}` is one object shared by every call that omits it: values written by one call (or one simulation) are still there in the next (a static simulation's saved iteration carries the velocity another, dynamic, simulation saved)")
             else:
                 r.ok()
+
+
+def _flat_args(args):
+    """the leaves of (nested) tuple / list arguments"""
+    out = []
+    for a in args:
+        if isinstance(a, (ast.Tuple, ast.List)):
+            out += _flat_args(a.elts)
+        else:
+            out.append(a)
+    return out
+
+
+def memo_result_escape_rule(ctx, rid, scope, min_instances=1):
+    """What a memoised method (@cache_computed_values) returns is SHARED by every later call with the same key.  A caller
+    that wraps such a value -- or a view of it -- into an object it hands out (a sparse matrix built from the cached index
+    arrays, a tuple, a returned array) gives its own caller write access to the memo: an in-place edit of the handed-out
+    object (eliminate_zeros(), sort, +=) silently changes every later result.  Flow: names bound (by unpacking) from a call
+    to a memoised method of self, closed under views; such a name must not reach a `return` value or the argument of a
+    constructor whose result is returned, except through `.copy()` / np.array / arithmetic (which allocate)."""
+    from .flow import CallGraph, alias_closure, is_view_expr
+
+    repo = ctx.repo
+    cg = CallGraph(repo)
+    r = ctx.rule(rid, "no value returned by a memoised method reaches the caller's own result un-copied (views and constructor arguments that keep references included)", min_instances=min_instances)
+    KEEP_REF = ("csr_matrix", "csc_matrix", "coo_matrix", "asarray", "asfearray", "view")
+    for f in sorted(repo.all_functions(), key=lambda f: f.qualname):
+        if not scope(f) or f.cls is None:
+            continue
+        seeds = {}
+        for n in ast.walk(f.node):
+            if isinstance(n, ast.Assign) and isinstance(n.value, ast.Call) and isinstance(n.value.func, ast.Attribute) and isinstance(n.value.func.value, ast.Name) and n.value.func.value.id == "self":
+                callees = cg.resolve_self_attr(f.cls, n.value.func.attr, include_overrides=False)
+                if any(g.is_cached() for g in callees):
+                    for t in n.targets:
+                        for x in (t.elts if isinstance(t, (ast.Tuple, ast.List)) else [t]):
+                            if isinstance(x, ast.Name):
+                                seeds[x.id] = n.value.func.attr
+        if not seeds:
+            continue
+        r.instance(fn=f.qualname)
+        aliases = alias_closure(f.node, set(seeds))
+        # objects built from an alias by a constructor that keeps references are aliases too
+        changed = True
+        while changed:
+            changed = False
+            for n in ast.walk(f.node):
+                if isinstance(n, ast.Assign) and isinstance(n.value, ast.Call) and (dotted(n.value.func) or "").split(".")[-1] in KEEP_REF:
+                    args = list(n.value.args) + [k.value for k in n.value.keywords]
+                    if any(is_view_expr(a, aliases) for a in _flat_args(args)):
+                        for t in n.targets:
+                            if isinstance(t, ast.Name) and t.id not in aliases:
+                                aliases.add(t.id)
+                                changed = True
+        bad = None
+        for n in ast.walk(f.node):
+            if isinstance(n, ast.Return) and n.value is not None:
+                vals = n.value.elts if isinstance(n.value, (ast.Tuple, ast.List)) else [n.value]
+                for v in vals:
+                    if is_view_expr(v, aliases):
+                        bad = (n, v)
+                    elif isinstance(v, ast.Call) and (dotted(v.func) or "").split(".")[-1] in KEEP_REF:
+                        args = list(v.args) + [k.value for k in v.keywords]
+                        if any(is_view_expr(a, aliases) for a in _flat_args(args)):
+                            bad = (n, v)
+        if bad:
+            n, v = bad
+            src = sorted(seeds.values())[0]
+            r.fail(f.qualname, f"memo-escape:{norm_text(v)[:30]}", f.file, n.lineno, f"{f.cls.name}.{f.name}", f"`{norm_text(n)[:70]}` hands out an object that shares storage with the value memoised by {src}(): an in-place structural edit by the caller (eliminate_zeros(), sort_indices(), +=) changes the memo, and every later result built from it is silently wrong")
+        else:
+            r.ok(f"{f.qualname}: memoised values stay private")
